@@ -59,12 +59,12 @@ def expectedStopped : SendHalf → Option (Option Nat)
 /-- `write` of `n` bytes: `limit` = connection credit and send-window room, `credit` = stream credit -/
 def expectedWrite (connClosed : Bool) (limit credit n : Nat) : SendHalf → Except WriteErr Nat
   | .gone => if connClosed then .error .blocked else .error .closedStream
+  | .ready (some c) => if connClosed then .error .blocked else .error (.stopped c)
   | h =>
     if connClosed then .error .blocked
     else if limit = 0 then .error .blocked
     else match h with
       | .ready none => if credit = 0 then .error .blocked else .ok (Nat.min n (Nat.min limit credit))
-      | .ready (some c) => .error (.stopped c)
       | _ => .error .closedStream
 
 theorem absSend_getOrInsert {s s1 : State} {id : Nat} {x : Send} (h : s.getOrInsertSend id = some (x, s1)) :
@@ -222,9 +222,15 @@ theorem write_table {s s' : State} {id n : Nat} {r : Except WriteErr Nat} (h : s
         have hb0 : ¬ x.maxData - x.pending.offset = 0 := by omega
         simp [expectedWrite, SendHalf.ofSend, hst, hsr, hl0, hb0, hk]
       | error e =>
-        rcases write_err_cases h hg hc' with ⟨h0, rfl⟩ | ⟨hl0, hx⟩
+        rcases write_err_cases h hg hc' with ⟨h0, rfl, hsf⟩ | ⟨hl0, hx⟩ | ⟨c, hsf, rfl⟩
         · unfold expectedWrite SendHalf.ofSend
-          cases x.state <;> simp [h0]
+          rcases stoppedFirst_none.mp hsf with hnw | hsr
+          · have : x.state ≠ .ready := by simpa [Send.isWritable] using hnw
+            cases hst : x.state with
+            | ready => exact absurd hst this
+            | dataSent fa => simp [h0]
+            | resetSent => simp [h0]
+          · cases x.state <;> simp [h0, hsr]
         · rcases Send.write_err hx with ⟨hnw, rfl⟩ | ⟨hw, c, hsr, rfl⟩ | ⟨hw, hsr, hb, rfl⟩
           · have : x.state ≠ .ready := by simpa [Send.isWritable] using hnw
             unfold expectedWrite SendHalf.ofSend
@@ -236,5 +242,8 @@ theorem write_table {s s' : State} {id n : Nat} {r : Except WriteErr Nat} (h : s
             simp [expectedWrite, SendHalf.ofSend, hst, hsr, hl0]
           · have hst : x.state = .ready := by simpa [Send.isWritable] using hw
             simp [expectedWrite, SendHalf.ofSend, hst, hsr, hl0, hb]
+        · obtain ⟨hw, hsr⟩ := stoppedFirst_some.mp hsf
+          have hst : x.state = .ready := by simpa [Send.isWritable] using hw
+          simp [expectedWrite, SendHalf.ofSend, hst, hsr]
 
 end QM.Streams
